@@ -8,9 +8,13 @@ import (
 	"errors"
 	"fmt"
 	"io"
+	"sync"
 	"testing"
+	"time"
 
+	"github.com/cbeuw/Cloak/internal/common"
 	kit "github.com/cbeuw/Cloak/internal/verifkit"
+	log "github.com/sirupsen/logrus"
 )
 
 type c14Step struct {
@@ -34,6 +38,7 @@ func c14Size(i, class int) int {
 
 func c14Run(b *c14Behaviour, class int) (key, what string, table []string) {
 	p := NewDatagramBufferedPipe()
+	arena := make([]byte, 40000)
 	var queue []int // harness's own view of what is queued, for sizing the read buffer
 	for si, st := range b.Steps {
 		switch st.A {
@@ -57,29 +62,39 @@ func c14Run(b *c14Behaviour, class int) (key, what string, table []string) {
 			if len(queue) > 0 {
 				head = c14Size(queue[0], class)
 			}
-			var buf []byte
+			// the read buffer is a sub-slice of a larger, sentinel-filled array (the io.ReadFull(conn, b[:k]) pattern):
+			// spare capacity behind it must never be written
+			var want int
 			switch st.Cap {
 			case "small":
 				if head <= 1 {
-					buf = make([]byte, 0, 0)
-					if head == 1 {
-						// a 1-byte datagram: the only smaller buffer is empty; Read(empty) is not a short-buffer case of the statement
-						table = append(table, fmt.Sprintf("step %d Read(small) skipped for a 1-byte datagram", si))
-						continue
-					}
-				} else {
-					buf = make([]byte, head-1)
+					// a 1-byte datagram: the only smaller buffer is empty; Read(empty) is not a short-buffer case of the statement
+					table = append(table, fmt.Sprintf("step %d Read(small) skipped for a 1-byte datagram", si))
+					continue
 				}
+				want = head - 1
 			case "exact":
-				buf = make([]byte, head)
+				want = head
 			default:
-				buf = make([]byte, head+7)
+				want = head + 7
 			}
 			if len(queue) == 0 {
-				buf = make([]byte, 16)
+				want = 16
 			}
+			for k := range arena {
+				arena[k] = 0x5A
+			}
+			buf := arena[:want]
 			n, err := p.Read(buf)
 			table = append(table, fmt.Sprintf("step %d Read(%s, %d bytes): expected got=%d err=%v observed n=%d err=%v", si, st.Cap, len(buf), st.Got, st.Err, n, err))
+			if n > len(buf) {
+				return "dgram-short-consumed", fmt.Sprintf("step %d: Read into a %d-byte buffer returned n=%d: it wrote past the caller's buffer", si, len(buf), n), table
+			}
+			for k := len(buf); k < len(buf)+64 && k < len(arena); k++ {
+				if arena[k] != 0x5A {
+					return "dgram-short-consumed", fmt.Sprintf("step %d: Read into a %d-byte buffer wrote beyond it (byte %d)", si, len(buf), k), table
+				}
+			}
 			exp, _ := st.Err.(string)
 			switch exp {
 			case "eof":
@@ -143,4 +158,107 @@ func TestVerifC14Pipe(t *testing.T) {
 	if err != nil {
 		t.Fatal(err)
 	}
+}
+
+
+// TestVerifC14Concurrent: several goroutines write datagrams on the SAME unordered stream at once (Mux.tla treats a
+// datagram write as one step under the stream's write mutex); every datagram must arrive whole, at most once.
+func TestVerifC14Concurrent(t *testing.T) {
+	log.SetOutput(io.Discard)
+	log.SetLevel(log.PanicLevel)
+	res := kit.NewResult()
+	defer func() { res.Save(true) }()
+	methods := []byte{EncryptionMethodPlain, EncryptionMethodAES256GCM, EncryptionMethodChaha20Poly1305, EncryptionMethodAES128GCM}
+	rounds := 4
+	if kit.Thorough() {
+		rounds = 24
+	}
+	for r := 0; r < rounds; r++ {
+		vn := kit.NewVNet()
+		var key [32]byte
+		copy(key[:], kit.NewRng(kit.Seed()+int64(r)).Bytes(32))
+		mk := func() *Session {
+			o, _ := MakeObfuscator(methods[r%4], key)
+			return MakeSession(8, SessionConfig{Obfuscator: o, Unordered: true, MsgOnWireSizeLimit: 16401, InactivityTimeout: time.Hour})
+		}
+		cs, ss := mk(), mk()
+		for i := 0; i < 3; i++ {
+			l := vn.NewLink(false, false)
+			cs.AddConnection(common.NewTLSConn(l.End(0)))
+			ss.AddConnection(common.NewTLSConn(l.End(1)))
+		}
+		st, err := cs.OpenStream()
+		if err != nil {
+			t.Fatal(err)
+		}
+		nw, per := 6, 400
+		st.Write(c14Self(99, 0, 16))
+		conn, err := ss.Accept()
+		if err != nil {
+			t.Fatal(err)
+		}
+		srv := conn.(*Stream)
+		done := make(chan struct{})
+		var got int
+		go func() {
+			defer close(done)
+			seen := map[[2]int]bool{}
+			buf := make([]byte, 20000)
+			for got < nw*per+1 {
+				srv.SetReadDeadline(time.Now().Add(2 * time.Second))
+				n, err := srv.Read(buf)
+				if err != nil {
+					return
+				}
+				got++
+				d := buf[:n]
+				if n < 8 {
+					res.Violate("dgram-wrong", fmt.Sprintf("a %d-byte datagram nobody sent arrived", n), nil)
+					return
+				}
+				w, seq, size := int(d[0]), int(d[1])<<16|int(d[2])<<8|int(d[3]), int(d[4])<<8|int(d[5])
+				if size != n || !bytes.Equal(d, c14Self(w, seq, size)) {
+					res.Violate("dgram-wrong", fmt.Sprintf("concurrent senders on one stream: datagram (writer %d, seq %d) arrived altered, merged or split: %d bytes, sent %d", w, seq, n, size),
+						map[string]any{"method": methods[r%4], "writers": nw})
+					return
+				}
+				if seen[[2]int{w, seq}] {
+					res.Violate("dgram-duplicate", fmt.Sprintf("concurrent senders on one stream: datagram (writer %d, seq %d) delivered twice", w, seq), map[string]any{"method": methods[r%4]})
+					return
+				}
+				seen[[2]int{w, seq}] = true
+			}
+		}()
+		var wg sync.WaitGroup
+		for w := 0; w < nw; w++ {
+			wg.Add(1)
+			go func(w int) {
+				defer wg.Done()
+				for s := 0; s < per; s++ {
+					size := []int{8, 100, 1200, 8192}[(s+w)%4]
+					if _, err := st.Write(c14Self(w, s, size)); err != nil {
+						return
+					}
+				}
+			}(w)
+		}
+		wg.Wait()
+		<-done
+		res.Count(fmt.Sprintf("round%d-m%d", r, methods[r%4]), true)
+		res.Stat("datagrams_received", int64(got))
+		if r == 0 {
+			res.Sample(map[string]any{"writers_on_one_stream": nw, "datagrams_each": per, "received": got}, 1)
+		}
+		if got < nw*per+1 && res.NumViolations() == 0 {
+			res.Violate("dgram-lost", fmt.Sprintf("concurrent senders on one healthy open stream: only %d of %d datagrams arrived", got, nw*per+1), nil)
+		}
+		cs.Close()
+		ss.Close()
+	}
+}
+
+func c14Self(w, seq, size int) []byte {
+	b := kit.TokenBytes(uint64(w)<<24|uint64(seq), size)
+	b[0], b[1], b[2], b[3], b[4], b[5] = byte(w), byte(seq>>16), byte(seq>>8), byte(seq), byte(size>>8), byte(size)
+	return b
 }
